@@ -1058,7 +1058,10 @@ impl Scenario for C11 {
         let std = adapter == Adapter::Std;
         // embedded-io 0.6 devices may fail with ErrorKind::Interrupted (fatal there, but legal)
         let intr_eio = !std && cfg!(feature = "eio06") && rng.chance(1, 3);
+        // rarely: a long-lived stream, hundreds of small messages through one writer and one reader
+        let long = rng.chance(1, 500) && !crate::runner::small();
         let nmsgs = match rng.below(8) {
+            _ if long => *rng.pick(&[257usize, 300, 600]),
             0..=3 => 1,
             4 | 5 => 2,
             6 => 3,
@@ -1066,6 +1069,7 @@ impl Scenario for C11 {
         };
         let budget = match rng.below(12) {
             _ if crate::runner::small() => *rng.pick(&[4usize, 10, 24]),
+            _ if long => 6,
             0 => 600,
             1 | 2 => 150,
             3..=6 => 40,
